@@ -76,10 +76,6 @@ func (rc *CRespCodec) Decode(c CConn) (*Msg, error) {
 	resp.Body = make(map[int32]*Frag, n)
 	resp.Fd2Slot = make(map[int]int32, n)
 
-	if rc.sizeTooLarge(buf.TotalSize()) {
-		resp.Type = codec.ReqTooLarge
-	}
-
 	switch resp.Type {
 	case codec.ReqMget:
 		if err = rc.Frag1(c, n, resp, buf); err != nil {
@@ -107,6 +103,10 @@ func (rc *CRespCodec) Decode(c CConn) (*Msg, error) {
 		if err = rc.Default(c, n, resp, buf); err != nil {
 			return nil, err
 		}
+	}
+	// the limit applies to this request's own encoded size, not to whatever else was read with it
+	if rc.sizeTooLarge(buf.ReadSize()) {
+		resp.Type = codec.ReqTooLarge
 	}
 	GlobalStats.TotalRequests.WithLabelValues().Inc()
 	_, _ = c.Discard(buf.ReadSize())
